@@ -703,6 +703,7 @@ def _wrap(task):
         spec.path_count += s2.path_count
         spec.assumptions |= s2.assumptions
     run.__name__ = task.__name__
+    run.shards = getattr(task, "shards", 0)
     return run
 
 
